@@ -86,6 +86,13 @@ pub fn run(
     let mut iter_counter = 0u64;
 
     loop {
+        #[cfg(feature = "verif")]
+        if let aquatic_common::verif::ProbeAction::Return =
+            aquatic_common::verif::probe("udp:socket:loop", 0)
+        {
+            return Ok(());
+        }
+
         poll.poll(&mut events, Some(poll_timeout)).context("poll")?;
 
         for event in events.iter() {
